@@ -133,4 +133,15 @@ AdjustEventsSpec(evs, tmin, tmax) ==
       pre  == IF body = <<>> \/ body[1] > lo THEN <<lo>> ELSE <<>>
       post == IF body = <<>> \/ body[Len(body)] < hi THEN <<hi>> ELSE <<>>
   IN  pre \o body \o post
+(* the labels travel with their events; an added range end is labelled "__T_MIN" / "__T_MAX" *)
+RECURSIVE FilterLabs(_, _, _, _)
+FilterLabs(s, l, lo, hi) == IF s = <<>> THEN <<>>
+  ELSE (IF Head(s) >= lo /\ Head(s) <= hi THEN <<Head(l)>> ELSE <<>>) \o FilterLabs(Tail(s), Tail(l), lo, hi)
+AdjustEventLabelsSpec(evs, labs, tmin, tmax) ==
+  LET lo == IF tmin = NONE_T THEN evs[1] ELSE tmin
+      hi == IF tmax = NONE_T THEN evs[Len(evs)] ELSE tmax
+      body == FilterSeq(evs, lo, hi)
+      pre  == IF body = <<>> \/ body[1] > lo THEN <<"__T_MIN">> ELSE <<>>
+      post == IF body = <<>> \/ body[Len(body)] < hi THEN <<"__T_MAX">> ELSE <<>>
+  IN  pre \o FilterLabs(evs, labs, lo, hi) \o post
 =============================================================================
